@@ -6,14 +6,14 @@
 EXTENDS Ledger, Json, TLC, TraceLib
 CONSTANT KNOWN
 Trace == ndJsonDeserialize("trace.ndjson")
-VARIABLES l, viol, hist, bank, disp, dust
-tvars == <<l, viol, hist, bank, disp, dust, lvars>>
+VARIABLES l, viol, hist, bank, disp, dust, payers
+tvars == <<l, viol, hist, bank, disp, dust, payers, lvars>>
 
 Range(s) == { s[i] : i \in DOMAIN s }
 RateV == N(146940000)
 MsPerDayV == N(86400000)
 NsPerMsV == Pow10(6)
-Init == /\ l = 1 /\ viol = {} /\ hist = 0 /\ bank = <<>> /\ disp = <<>> /\ dust = Zero
+Init == /\ l = 1 /\ viol = {} /\ hist = 0 /\ bank = <<>> /\ disp = <<>> /\ dust = Zero /\ payers = <<>>
         /\ supply = Zero /\ minit = FALSE /\ hasprev = FALSE /\ prev = Zero /\ tbr = Zero /\ lnow = Zero /\ ivals = <<>>
 
 \* ---- dispute executions observed across a begin-block (burn by ExecuteVote) ----
@@ -53,10 +53,14 @@ Check(e) ==
    ELSE IF e.ev = "MintInit" THEN (IF LStartMint THEN {} ELSE {"MintInitOnlyStartsMinting"})
    ELSE IF e.ev = "WithdrawFeeRefund" THEN
         \* burned whole loya b: b*10^6 + dust' - dust = fractions added, 0 <= fractions < 2*10^6
-        LET bdust == Monus(supply, b.supply)
+        \* (a refund from a failed - never fully funded - dispute also burns the payer's part of the 5% burn)
+        LET DR == { d \in { disp[i] : i \in DOMAIN disp } : d.id = e.id /\ d.status = 4 }
+            PR == { p \in { payers[i] : i \in DOMAIN payers } : p.id = e.id /\ p.who = e.payer }
+            pburn == IF e.ok /\ DR # {} /\ PR # {} THEN LET d == CHOOSE x \in DR : TRUE p == CHOOSE x \in PR : TRUE IN (p.amt ** (d.feetotal // N(20))) // d.feetotal ELSE Zero
+            bdust == Monus(Monus(supply, b.supply), pburn)
             lhs == (bdust ** Pow10(6)) ++ e.post.dispute.dust
         \* and what is carried over is below one unit (whole units of dust are burned with the withdrawal that completes them)
-        IN (IF b.supply \preceq supply /\ LDustBurn(bdust) /\ dust \preceq lhs /\ (lhs -- dust) \prec (N(2) ** Pow10(6))
+        IN (IF b.supply \preceq supply /\ LDustBurn(bdust ++ pburn) /\ pburn \preceq Monus(supply, b.supply) /\ dust \preceq lhs /\ (lhs -- dust) \prec (N(2) ** Pow10(6))
                /\ (~e.ok \/ e.post.dispute.dust \prec Pow10(6))
             THEN {} ELSE {"RefundBurnsOnlyAccumulatedDust"})
    ELSE frame)
@@ -72,7 +76,7 @@ Step ==
      IN /\ hist' = e.hist
         /\ supply' = b.supply /\ minit' = b.minter.init /\ hasprev' = b.minter.hasprev /\ prev' = b.minter.prevn
         /\ tbr' = b.bal.tbr /\ lnow' = t
-        /\ bank' = b /\ disp' = e.post.dispute.disputes /\ dust' = e.post.dispute.dust
+        /\ bank' = b /\ disp' = e.post.dispute.disputes /\ dust' = e.post.dispute.dust /\ payers' = e.post.dispute.payers
         /\ ivals' = IF reset THEN << [t0 |-> t, minted |-> Zero] >>
                     ELSE IF e.ev = "BeginBlock" /\ e.ok
                          THEN LET x == Provision(t)
